@@ -72,6 +72,19 @@ Proof. exact (nan_ranks_last ne ls j k). Qed.
 Theorem C18_elite_count ne cl : length (elites ne cl) = Nat.min ne (length cl) /\ NoDup (elites ne cl) /\
   forall i, In i (elites ne cl) -> (i < length cl)%nat.
 Proof. exact (conj (elites_length ne cl) (conj (elites_NoDup ne cl) (elites_range ne cl))). Qed.
+(* counted form: while at least ne candidates of the iteration have a loss below +inf, no NaN candidate is an elite *)
+Theorem C18_no_nan_elite_when_enough_finite ne ls j :
+  (ne <= length (below_inf (map clean ls)))%nat -> In j (elites ne (map clean ls)) -> nth j ls NaN <> NaN.
+Proof. exact (enough_finite_no_nan_elite_losses ne ls j). Qed.
+(* the literal reading "a NaN candidate is never an elite while some finite-loss candidate exists" is not satisfiable with a
+   fixed elite count (and is not what rex does): 2 elites, losses [1; NaN] *)
+Theorem C18_nan_elite_literal_refuted : exists ne ls j k, In j (elites ne (map clean ls)) /\ nth j ls NaN = NaN /\
+  (k < length ls)%nat /\ finite (clean (nth k ls NaN)) = true.
+Proof. exact nan_elite_literal_refuted. Qed.
+(* argsort is the stable sort: the (index, loss) pairs come out strictly increasing in (loss, index) *)
+Theorem C18_argsort_stable cl : Sorted.StronglySorted plt (sort_pairs (index cl)) /\
+  Permutation.Permutation (argsort cl) (seq 0 (length cl)).
+Proof. exact (conj (argsort_stable cl) (argsort_perm cl)). Qed.
 Theorem C18_cem_nan_never_best sqrtq sm d N ne s lo hi : (1 <= ne)%nat -> forall noise f n m sd x v, (1 <= N)%nat -> (1 <= n)%nat ->
   In (x, Num (Val v)) (evals sqrtq sm d N ne s lo hi noise f n (init_state m sd)) ->
   exists y l, In (y, l) (evals sqrtq sm d N ne s lo hi noise f n (init_state m sd)) /\
